@@ -57,13 +57,15 @@ def case(draw, tier):
     big = tier == "thorough"
     kind = draw(st.integers(0, 9))
     schema = ("SIGNAL",) if kind == 0 else ("TS", draw(st.sampled_from(["int", "str", "bool"]))) if kind == 1 else \
-        draw(bundle_schema(3)) if kind in (2, 3) else draw(tm.schemas(3))
+        draw(bundle_schema(3)) if kind in (2, 3) else ("TSD", "int", ("TS", "int")) if kind == 4 else draw(tm.schemas(3))
     start = draw(st.sampled_from([0, 0, 2, 40000]))
     horizon = draw(st.integers(3, 24 if big else 10))
     opts = {"cancel": True, "multi": True, "no_rewrite": True, "inval": draw(st.booleans()), "keys": draw(st.sampled_from([4, 8])),
-            "whole": True}
+            "whole": True, "whole_dict": True}
     script = draw(tm.history(schema, start, horizon, opts, max_cycles=10 if big else 6))
     cons = []
+    if kind == 4:
+        cons.append({"kind": "keyset"})
     for _ in range(draw(st.integers(1, 3))):
         where = draw(st.sampled_from(["root", "root", "child", "nested"]))
         if where == "child" and schema[0] in ("TSB", "TSL"):
@@ -71,6 +73,8 @@ def case(draw, tier):
             cons.append({"kind": "child", "path": [draw(st.integers(0, n - 1))]})
         elif where == "nested":
             cons.append({"kind": "nested"})
+        elif schema[0] == "TSD" and draw(st.booleans()):
+            cons.append({"kind": "keyset"})     # bound to the dictionary's key-set endpoint (what map_ / keys_ bind to)
         else:
             cons.append({"kind": "root"})
     return {"schema": schema, "script": script, "start": start, "end": start + horizon, "cons": cons}
@@ -148,6 +152,21 @@ def compare_tree(d, m, schema, t, where, out, is_consumer, root_invalidation):
             out.append(("dict_key_set_wrong", f"{where} at t={t}: keys {sorted(missing)} are missing", feats))
 
 
+def _touches_keys(op, before):
+    """does this dictionary op insert or remove a key (even if a later op of the same call cancels it)?"""
+    if op.get("k") != "D":
+        return False
+    live = set(before)
+    for o in op["ops"]:
+        if o[0] in ("set", "at") and o[1] not in live:
+            return True
+        if o[0] == "erase" and o[1] in live:
+            return True
+        if o[0] == "clear" and live:
+            return True
+    return False
+
+
 def same_facts(p, c, schema, t, where, out):
     """every consumer sees the same value, modified, valid and last-modified-time as the producer."""
     k = schema[0]
@@ -186,6 +205,9 @@ def check(case, ctx) -> Result:
         if c["kind"] == "root":
             stmts.append({"id": f"c{j}", "op": "node", "ins": ["w"], "deep": True, "valid": [], "log_inputs": False})
             cons.append((f"c{j}", [], "r"))
+        elif c["kind"] == "keyset":
+            stmts.append({"id": f"c{j}", "op": "node", "ins": [{"r": "w", "keyset": True}], "deep": True, "valid": [], "log_inputs": False})
+            cons.append((f"c{j}", [], "keyset"))
         elif c["kind"] == "child":
             stmts.append({"id": f"c{j}", "op": "node", "ins": [{"r": "w", "path": c["path"]}], "deep": True, "valid": [], "log_inputs": False})
             cons.append((f"c{j}", c["path"], "r"))
@@ -217,10 +239,21 @@ def check(case, ctx) -> Result:
             nested_evals.setdefault(d["label"], {})[d["t"]] = d["ins"][0]
     out = []
     del SOFT[:]
+    ks = {"valid": False, "lmt": -1}
     for t in range(start, end):
         m.begin_cycle()
+        ks_written = False
         for op in script.get(t, []):
+            before = set(m.value) if schema[0] == "TSD" else None
+            was_valid = m.valid
             m.apply(op, t)
+            if schema[0] == "TSD":
+                # the key-set endpoint is written by every key insertion / removal (also cancelled ones) and by the
+                # dictionary's first write
+                if set(m.value) != before or (not was_valid and m.valid) or _touches_keys(op, before):
+                    ks_written = True
+        if ks_written:
+            ks = {"valid": True, "lmt": t}
         if t in script and schema[0] in ("TSB", "TSL", "TSD") and m.modified():
             child_only = True
         if t not in script and wrote_before:
@@ -239,6 +272,26 @@ def check(case, ctx) -> Result:
         if out:
             break
         for lbl, path, kind in cons:
+            if kind == "keyset":
+                n = by_label.get(lbl)
+                if n is None or "in" not in n:
+                    out.append(("snapshot_failed", f"key-set consumer {lbl} unreadable at t={t}: {n}", {}))
+                    break
+                C = n["in"][0]
+                exp_keys = sorted(m.value) if ks["valid"] else None
+                got_keys = sorted(C.get("val")) if C.get("val") is not None else None
+                feats_k = {"where": "keyset_consumer", "kind": "TSS"}
+                if C["m"] != ks_written:
+                    out.append(("modified_wrong", f"key-set consumer {lbl} at t={t}: modified reads {C['m']} but the script {'inserted / removed keys' if ks_written else 'neither inserted nor removed a key'} in this cycle (keys now {sorted(m.value)}, lmt={C['lmt']})", dict(feats_k, reads=C["m"])))
+                elif C["v"] != ks["valid"]:
+                    out.append(("valid_wrong", f"key-set consumer {lbl} at t={t}: valid reads {C['v']}, by the write history {ks['valid']}", dict(feats_k, reads=C["v"])))
+                elif ks["valid"] and C["lmt"] != ks["lmt"]:
+                    out.append(("last_modified_wrong", f"key-set consumer {lbl} at t={t}: last_modified_time reads {C['lmt']} but keys were last inserted / removed at {ks['lmt']}", feats_k))
+                elif ks["valid"] and got_keys != exp_keys:
+                    out.append(("dict_key_set_wrong", f"key-set consumer {lbl} at t={t}: reads keys {got_keys}, the dictionary holds {exp_keys}", feats_k))
+                if out:
+                    break
+                continue
             if kind == "r":
                 n = by_label.get(lbl)
                 if n is None or "in" not in n:
@@ -283,6 +336,10 @@ def check(case, ctx) -> Result:
         res.labels.append("silent_cycle_after_write")
     if any(k == "nested" for _, _, k in cons):
         res.labels.append("nested_consumer")
+    if any(k == "keyset" for _, _, k in cons):
+        res.labels.append("key_set_consumer")
+    if '"setd"' in flat:
+        res.labels.append("whole_dictionary_write")
     if any(p for _, p, _ in cons):
         res.labels.append("child_path_consumer")
     if "inval" in str(case["script"]):
